@@ -85,6 +85,18 @@ def variants(obj, rng, pool, per_field=8, others=(), depth=0):
                 cands = _values_for(cur, rng, pool)
             except Exception:  # pylint: disable=broad-except
                 cands = []
+            if not cands:
+                # a value of a type with no generic variations (a key object, a URL, ...): the value the same field has in
+                # another object of the class
+                for o in others:
+                    v = getattr(o, f.name, None)
+                    try:
+                        differs = v is not None and v != cur
+                    except Exception:  # pylint: disable=broad-except
+                        differs = False
+                    if differs:
+                        cands.append(('other', v))
+                        break
             plain = bool(cands)
             if f.default is None:
                 cands.append(('absent', None))
@@ -94,11 +106,25 @@ def variants(obj, rng, pool, per_field=8, others=(), depth=0):
                     cands.append(('.' + l2, v2))
         if len(cands) > per_field and all(l == 'member' for l, _ in cands):
             cands = cands[:3] + rng.sample(cands[3:], per_field - 3)
+        twins = 0
         for label, v in cands:
             try:
-                yield ('%s%s' if label.startswith('.') else '%s=%s') % (f.name, label), attr.evolve(obj, **{f.name.lstrip('_'): v})
+                fresh = attr.evolve(obj, **{f.name.lstrip('_'): v})
+                yield ('%s%s' if label.startswith('.') else '%s=%s') % (f.name, label), fresh
             except Exception:  # pylint: disable=broad-except
                 continue
+            if depth == 0 and twins < 2 and not label.startswith('.') and all(g.init for g in attr.fields(cls)):
+                # (classes with derived fields computed at construction are left out: assignment cannot keep those in step)
+                # the same object reached by another history: observe the original first (compose, fingerprints, key tag,
+                # serialisation - whatever it offers), THEN assign the field.  An object is its field values, so this twin
+                # has to behave exactly like the freshly constructed variant (no stale memoised result).
+                try:
+                    twin = _observed_then_assigned(obj, f.name, getattr(fresh, f.name))
+                except Exception:  # pylint: disable=broad-except
+                    twin = None
+                if twin is not None:
+                    twins += 1
+                    yield 'assigned-after-observing:%s=%s' % (f.name, label), twin
     if depth == 0:
         for d, v in inplace_variants(obj):
             yield d, v
@@ -162,3 +188,17 @@ def inplace_variants(obj, limit=10):
         if what:
             done += 1
             yield 'inplace%s:%s' % (path, what), dup
+
+
+def _observed_then_assigned(obj, name, value):
+    import copy
+    from . import objects
+    twin = copy.deepcopy(obj)
+    for ob in objects.observers_of(twin):
+        if ob in ('compose', 'ja3', 'hassh', 'hassh_server', 'fingerprints', 'key_tag', 'as_json', 'known_hosts', 'host_key_asdict'):
+            try:
+                objects.call_observer(twin, ob)
+            except Exception:  # pylint: disable=broad-except
+                pass
+    setattr(twin, name, copy.deepcopy(value))
+    return twin
